@@ -663,3 +663,33 @@ func AfterFunc(d time.Duration, f func()) *time.Timer {
 		f()
 	})
 }
+
+// SelStart is called by the rewritten form of every select statement with two or more
+// communication clauses (engine/xform rewriteSelects): it returns the index of the
+// clause that is probed first. When the caller holds the run token the value is drawn
+// from the choice stream (0 = source order is the replay default), so which of several
+// ready cases a select takes is part of the recorded schedule instead of Go's per-M
+// random state; a goroutine that runs without the token uses source order.
+func SelStart(n int) int {
+	s := active.Load()
+	if s == nil || n <= 1 {
+		return 0
+	}
+	g := goid()
+	off := 0
+	s.mu.Lock()
+	if !s.aborted && g == s.current {
+		off = s.Choice.Intn(n)
+	}
+	s.mu.Unlock()
+	return off
+}
+
+// ElemZero returns the zero value of the element type of a channel; the rewritten
+// select uses it to declare the variable a receive clause assigns to without naming
+// the type.
+func ElemZero[C interface{ ~chan T | ~<-chan T }, T any](c C) (z T) { return z }
+
+// SendVal converts the value of a send clause to the element type of its channel, so
+// that the rewritten select can evaluate it exactly once before probing.
+func SendVal[C interface{ ~chan T | ~chan<- T }, T any](c C, v T) T { return v }
